@@ -549,6 +549,66 @@ OTHER_PRECISION_OK = {
 }
 
 
+def functions_behind(prog, prefixes):
+    """instantiated library functions whose name matches one of the prefixes, plus every library function they
+    reach through resolved calls (helpers a change may introduce are covered without being named)"""
+    roots = []
+    for name, fs in prog.by_name.items():
+        if any(name == pre or (pre.endswith('::') and name.startswith(pre)) for pre in prefixes):
+            roots += [f for f in fs if f.body is not None and not f.is_pattern]
+    seen = {}
+    todo = list(roots)
+    while todo:
+        f = todo.pop()
+        if f.id in seen:
+            continue
+        seen[f.id] = f
+        for nd in f.body.walk():
+            if nd.op in ('call', 'mcall', 'opcall', 'construct') and nd.a.get('hep') and nd.a.get('id'):
+                g = prog.funcs.get(nd.a['id'])
+                if g is not None and g.body is not None and not g.is_pattern and g.id not in seen and \
+                        (g.qualname or '').startswith('hep::'):
+                    todo.append(g)
+    return list(seen.values())
+
+
+NARROW_INTS = ('int', 'unsigned int', 'short', 'unsigned short', 'char', 'signed char', 'unsigned char')
+
+
+def counters_full_width(ctx, rule, prefixes, minimum=1):
+    """Call counters and indices are std::size_t from where they are counted to where they are reported: in the
+    listed functions (and the library functions they reach) no variable, call result or sub-expression has an
+    integer type narrower than that (`std::accumulate(b, e, 0, ..)` sums in an int whatever the lambda returns:
+    totals beyond 2^31 wrap).  Literals and the constants of std::numeric_limits are exempt."""
+    p = ctx.prog
+    n = 0
+    for f in functions_behind(p, prefixes):
+        n += 1
+        ctx.analysed(f)
+
+        def r(f=f):
+            bad = []
+            for nd in f.body.walk():
+                t = ir.strip_cvref(nd.ty or '') if isinstance(nd.ty, str) else ''
+                if t in NARROW_INTS and nd.op not in ('lit',):
+                    txt = ir.show(nd)
+                    if 'digits' in txt or 'max_digits10' in txt:
+                        continue
+                    if nd.op == 'cond' and all(isinstance(c, ir.N) and c.op == 'lit' for c in nd.k[1:]):
+                        continue        # (c ? 1 : 0)
+                    bad.append(nd)
+            if bad:
+                b = min(bad, key=lambda x: (x.line or 0))
+                ctx.violation(rule, '%s:%s' % (b.where(), strip_targs(f.qualname).replace('hep::', '')),
+                              'an expression of type %s where call counters are computed: counts beyond the range of '
+                              'that type (2^31) wrap (%d such expressions in this function)' % (ir.strip_cvref(b.ty), len(bad)),
+                              {'expression': ir.show(b)[:160]})
+            else:
+                ctx.holds(rule, fsite(f), 'no integer expression narrower than std::size_t')
+        ctx.guard(rule, fsite(f), r)
+    ctx.count('functions checked for full-width counters (%s)' % rule, n, minimum)
+
+
 def single_precision(ctx, rule, prefixes, minimum=1):
     """All arithmetic of the listed functions happens in the numeric type T of the instantiation: no
     sub-expression, variable, call result or template argument deduced from a literal has another
@@ -557,10 +617,7 @@ def single_precision(ctx, rule, prefixes, minimum=1):
     argument of nexttoward are the only exceptions.  Decided on the typed syntax tree of every listed function in
     each analysed instantiation (float, double, long double)."""
     p = ctx.prog
-    funcs = []
-    for name, fs in p.by_name.items():
-        if any(name == pre or (pre.endswith('::') and name.startswith(pre)) for pre in prefixes):
-            funcs += [f for f in fs if f.body is not None and not f.is_pattern]
+    funcs = functions_behind(p, prefixes)
     n = 0
     for f in funcs:
         if strip_targs(f.qualname) in OTHER_PRECISION_OK:
@@ -610,9 +667,17 @@ def no_static_state(ctx, rule, prefixes=('hep::',), minimum=20):
             if f.body is None or f.is_pattern:
                 continue
             n += 1
+            local_ids = set(q.id for q in f.params)
+            for nd in f.body.walk():
+                if nd.op in ('decl', 'rangefor') and nd.a.get('id') is not None:
+                    local_ids.add(nd.a['id'])
             for nd in f.body.walk():
                 if nd.op == 'decl' and nd.a.get('static'):
-                    dyn = any(x.op in ('var', 'this', 'mem') for k_ in nd.k if isinstance(k_, ir.N) for x in k_.walk())
+                    # run-time values: parameters, locals, members of *this (constants of other classes such as
+                    # std::numeric_limits<T>::digits are compile-time values)
+                    dyn = any((x.op == 'var' and x.a.get('id') in local_ids) or x.op in ('this',) or
+                              (x.op == 'mem' and any(y.op == 'this' for y in x.walk()))
+                              for k_ in nd.k if isinstance(k_, ir.N) for x in k_.walk())
                     if dyn:
                         bad.append((f, nd))
     ctx.count('functions scanned for static local state (%s)' % rule, n, minimum)
@@ -700,3 +765,52 @@ def by_reference_parameters(ctx, rule, names, minimum=1):
                                   'a derived type is sliced (a checkpoint loses its generators before it is '
                                   'serialised)' % (q.name, ir.strip_cvref(t)[:80]))
     ctx.count('class-type parameters (%s)' % rule, n, minimum)
+
+
+def no_use_after_move(ctx, rule, names, opaque=(), minimum=1):
+    """No object is read after it has been the argument of std::move in a move construction / move assignment /
+    by-value parameter (its state is unspecified; a moved-from vector is empty, a moved-from engine of a user type
+    has lost its state), neither later on the same path nor - for a variable that lives across the iterations of
+    a loop - in the next iteration.  Decided on the summaries of the named functions: the summariser replaces the
+    source of a move by a `moved` marker and records every read of such a marker."""
+    p = ctx.prog
+    n = 0
+    for nm in names:
+        for f in p.find(nm):
+            if f.body is None or f.is_pattern:
+                continue
+            n += 1
+            ctx.analysed(f)
+
+            def r(f=f):
+                s, ex = summarise(p, f, opaque=set(opaque))
+                reads = [e for e, l in flat_effects(s.effects) if e['kind'] == 'moved_read']
+                if reads:
+                    e = reads[0]
+                    ctx.violation(rule, '%s:%s' % (e['where'], strip_targs(f.qualname).replace('hep::', '')),
+                                  '`%s` is read after it was moved from (std::move at %s): its value is unspecified '
+                                  '(an empty container, an engine without its state)' % (e['var'], e['moved_at']))
+                    return
+                for l in s.loops:
+                    for lab, u in l.updates.items():
+                        nx = u.get('next')
+                        if isinstance(nx, tuple) and any(isinstance(t, tuple) and t and t[0] == 'moved' for t in T.subterms(nx)):
+                            used = any(T.occurs(x, u['pre']) for e_, _ in flat_effects(l.effects)
+                                       for x in (list(e_.get('args') or []) + [e_.get('obj'), e_.get('gen'), e_.get('n')])
+                                       if isinstance(x, tuple)) or \
+                                any(T.occurs(u2['next'], u['pre']) for l2, u2 in l.updates.items() if l2 != lab)
+                            if used or True:
+                                mv = [t for t in T.subterms(nx) if isinstance(t, tuple) and t and t[0] == 'moved'][0]
+                                ctx.violation(rule, '%s:%s' % (mv[2], strip_targs(f.qualname).replace('hep::', '')),
+                                              '`%s` is moved from inside the loop and used again by the next iteration: '
+                                              'from the second iteration on the loop works with an object in an '
+                                              'unspecified state' % lab)
+                                return
+                # a moved-from object returned to the caller
+                if isinstance(s.ret, tuple) and any(isinstance(t, tuple) and t and t[0] == 'moved' for t in T.subterms(s.ret)):
+                    ctx.violation(rule, fsite(f), 'the function returns an object it has moved from on some path',
+                                  {'returns': T.pretty(s.ret)[:300]})
+                    return
+                ctx.holds(rule, fsite(f), 'no read of a moved-from object')
+            ctx.guard(rule, fsite(f), r)
+    ctx.count('functions checked for use after move (%s)' % rule, n, minimum)
